@@ -7,5 +7,6 @@ func main() {
 	vh.Main(map[string]vh.Mode{
 		"c09": c09,
 		"c43": c43,
+		"c36": c36,
 	})
 }
